@@ -106,6 +106,43 @@ theorem unetC_ok (L cin cout F : Nat) (r : List Nat) :
       (convBlockC_ok (2 * F) F r)) (cons conv (cons emit nil))
     exact cons conv (cons emit (cast_out (by omega) cat0))
 
+/-! ## MultiDomainUnet2d -/
+
+theorem mdConvC_ok (keep : Bool) (cin c : Nat) (r : List Nat) (hc : c % 2 = 0) :
+    CRun (mdConvC keep cin c) cin (cin :: r) c (if keep then cin :: r else r) := by
+  unfold mdConvC
+  cases keep
+  · exact append (append (cons conv (cons save (cons (load (c := cin) (by simp)) nil))) (cons (drop (d := 1) (by simp)) nil))
+      (cons conv (cast_out (by omega) cat0))
+  · exact append (append (cons conv (cons save (cons (load (c := cin) (by simp)) nil))) nil)
+      (cons conv (cast_out (by omega) (cat0 (c := c / 2) (r := cin :: r))))
+
+theorem mdBlockC_ok (keep : Bool) (cin c : Nat) (r : List Nat) (hc : c % 2 = 0) :
+    CRun (mdBlockC keep cin c) cin (cin :: r) c (if keep then cin :: r else r) :=
+  append (append (mdConvC_ok keep cin c r hc) save) (mdConvC_ok false c c _ hc)
+
+theorem mdLvC_ok (L : Nat) : ∀ (keep : Bool) (cin c : Nat) (r : List Nat), c % 2 = 0 →
+    CRun (mdLvC keep cin c L) cin (cin :: r) c (c :: (if keep then cin :: r else r)) := by
+  induction L with
+  | zero => intro keep cin c r hc; exact append (mdBlockC_ok keep cin c r hc) (cons save (cons emit nil))
+  | succ L ih =>
+    intro keep cin c r hc
+    show CRun (mdBlockC keep cin c ++ [.save, .emit] ++ mdLvC true c (2 * c) L ++
+      mdConvC false (2 * c) c ++ [.emit, .cat [0], .drop 0, .save] ++ mdBlockC false (2 * c) c ++ [.save, .emit]) _ _ _ _
+    refine append (append (append (append (append (append (mdBlockC_ok keep cin c r hc) (cons save (cons emit nil)))
+      (ih true c (2 * c) _ (by omega))) (mdConvC_ok false (2 * c) c _ hc))
+      (cons emit (append (p := [.cat [0], .drop 0]) (cast_out (by omega) cat0) save))) (mdBlockC_ok false (2 * c) c _ hc))
+      (cons save (cons emit nil))
+
+/-- for every even `num_filters` and all `in_channels`, `out_channels`, depths: the forward runs, ends with `out_channels`
+and leaves the register file as it found it -/
+theorem mdUnetC_ok (L cin cout F : Nat) (r : List Nat) (hF : F % 2 = 0) : CRun (mdUnetC cin cout F L) cin r cout r := by
+  unfold mdUnetC
+  refine append (append (append (append (append (append (append (a := cin) (ra := r) save (mdBlockC_ok false cin F r hF))
+    (cons save (cons emit nil))) (mdLvC_ok (L - 1) true F (2 * F) r (by omega))) (mdConvC_ok false (2 * F) F _ hF))
+    (cons emit (append (p := [.cat [0], .drop 0]) (cast_out (by omega) cat0) save))) (mdBlockC_ok false (2 * F) F _ hF))
+    (cons conv (cons emit nil))
+
 /-! ## MWCNN -/
 
 theorem mwDownC_ok (bn : Bool) (cin w : Nat) (r : List Nat) : CRun (mwDownC bn false cin w) cin r w r := by
